@@ -13,9 +13,11 @@ from vlib.systems import whole_number_bounds, Sys, matrix_system, target_rows
 from props.c15_units import twin_system
 
 
-def under_system(surplus=(1, 3)):
-    return matrix_system(m=(2, 4), shape="under", surplus=surplus, ub_kinds=("finite",), lb_kinds=("zero", "zero", "pos"),
-                         sub_cond=1e4)
+@st.composite
+def under_system(draw, surplus=(1, 3)):
+    # a quarter of the systems are signed (opponent / difference channels: negative entries in the capture matrix)
+    return draw(matrix_system(m=(2, 4), shape="under", surplus=surplus, ub_kinds=("finite",), lb_kinds=("zero", "zero", "pos"),
+                              sub_cond=1e4, nonneg=draw(st.sampled_from([True, True, True, False]))))
 
 
 def call_range(sv: Sys, B, entry, **kw):
